@@ -104,6 +104,7 @@ func (m *c12Mount) String() string { return m.NSPath + m.api() + "[" + m.Tag + "
 type c12Tok struct {
 	Name     string   `json:"name"`
 	ID       string   `json:"-"`
+	Accessor string   `json:"-"`
 	NS       *c12NS   `json:"-"`
 	NSPath   string   `json:"ns"`
 	Kind     string   `json:"kind"`
@@ -174,8 +175,20 @@ func (w *c12World) witness(extra map[string]any) map[string]any {
 	return out
 }
 
+// c12Shapes are the narrow classes of precisely delimited configurations; their
+// witnesses do not count towards the cut-offs that end a run early.
+var c12Shapes = map[string]bool{
+	"C12-mount-inside-sealed-namespace-path-served-to-child-token":          true,
+	"C12-reissued-token-id-reads-earlier-holders-child-namespace-cubbyhole": true,
+}
+
+func c12Generic(r *kit.Result) int { return int(r.Get("violations_of_generic_classes")) }
+
 func (w *c12World) violate(class, what string, extra map[string]any) {
-	w.failed = true
+	if !c12Shapes[class] {
+		w.failed = true
+		w.r.Count("violations_of_generic_classes", 1)
+	}
 	w.r.Violate(class, w.caseID, "["+w.caseID+"] "+what, w.witness(extra))
 }
 
